@@ -300,8 +300,8 @@ class C11(PropBase):
                 "below the address, suppressed exactly when a FUNC of the table starts between it and the address; the source line is the covering line "
                 "record or the covering depth-0 inline call site; the inline chain has depths 0,1,2.. each covering the address, frames carry the next "
                 "call site / innermost line, reversed in the stack frame, and the depth loop ends within fuel = number of inlinees; for non-overlapping "
-                "files everything (incl. the STACK WIN parameter size) equals a linear scan; the FUNC table of C09's byte-level parser model is C11's FUNC table "
-                "(c11_from_text_partial). Model and real code (parser + fill_symbol + walk_stack over a module list + Symbolizer::get_symbol_at_address) are run on the same generated files in "
+                "files everything (incl. the STACK WIN parameter size) equals a linear scan; the whole table of C09's byte-level parser model (finish) is related to the text's records and fill_symbol on it "
+                "equals symbolize on them (c11_from_text); the module-list lookup of C08 composes with fill_symbol (c11_module_lookup_compose). Model and real code (parser + fill_symbol + walk_stack over a module list + Symbolizer::get_symbol_at_address) are run on the same generated files in "
                 "debug and release; an independent Python linear-scan oracle judges the real output.",
         "note": "Trusted: Coq kernel; hand-written model (correspondence-checked, parser table construction included); ExtrOcamlBasic extraction + OCaml/Rust glue; "
                 "std binary search and sort modelled from their documented algorithms. No axioms.",
